@@ -103,6 +103,9 @@ def _wrap_numpy(arr, how):
     raise AssertionError(how)
 
 
+_CLIENT_INDEX = [None]  # the client's own (named, non-default) index object for this run, if any
+
+
 def own_array(arr: np.ndarray, how: str, name=None, lens=None) -> Owned:
     import pandas as pd
     import polars as pl
@@ -115,6 +118,10 @@ def own_array(arr: np.ndarray, how: str, name=None, lens=None) -> Owned:
         return Owned(v, owners, how)
     if how == "pandas":
         base = arr.copy()
+        ix = _CLIENT_INDEX[0]
+        if ix is not None and len(ix) == len(base):
+            sr = pd.Series(base, name=name if name else "vname", index=ix, copy=False)
+            return Owned(sr, [base, ix, sr], how)
         return Owned(pd.Series(base, name=name, copy=False), [base], how)
     temporal = arr.dtype.kind in "mM"
 
@@ -213,7 +220,26 @@ def scribble(res, probes):
         elif isinstance(res, dict):
             for v in res.values():
                 raw(v) if isinstance(v, np.ndarray) else None
-        elif isinstance(res, pd.Series):
+        if isinstance(res, (pd.Series, pd.DataFrame)):
+            # the result's index: rename it and write into its values where that is allowed
+            try:
+                raw(res.index.values)
+            except Exception:
+                pass
+            try:
+                if isinstance(res.index, pd.MultiIndex):
+                    res.index.names = ["__scribbled__"] * res.index.nlevels
+                else:
+                    res.index.name = "__scribbled__"
+                probes.add("scribbled_index_name")
+            except Exception:
+                pass
+            try:
+                if isinstance(res, pd.Series):
+                    res.name = "__scribbled__"
+            except Exception:
+                pass
+        if isinstance(res, pd.Series):
             try:
                 raw(res.values)
             except Exception:
@@ -345,6 +371,7 @@ def gen_scenario(scen: Choices, cls, cfg):
         val_cont.append(c)
     cut_lens = gen._cuts(scen, n)
     mask_readonly = bool(scen.draw(2))
+    client_index = scen.chance(1, 3)  # pandas inputs share one named, non-default index object
     max_steps = 6 if tier == "quick" else 8
     nsteps = 1 + scen.draw(max_steps)
     steps = []
@@ -377,7 +404,7 @@ def gen_scenario(scen: Choices, cls, cfg):
 
     return {
         "ds": ds, "sort": sort, "st": st, "key_cont": key_cont, "val_cont": val_cont, "cut_lens": cut_lens,
-        "mask_readonly": mask_readonly, "steps": steps, "fault": fault, "fault_step": fault_step,
+        "mask_readonly": mask_readonly, "steps": steps, "fault": fault, "fault_step": fault_step, "client_index": client_index,
     }
 
 
@@ -394,6 +421,7 @@ def execute(sc, sched: Choices, cls, cfg):
     key_kind = ds["key_kinds"][0] if len(ds["key_kinds"]) == 1 else "multi"
 
     # ---- materialise the client's buffers once ----
+    _CLIENT_INDEX[0] = pd.Index(np.arange(n) * 2 + 100, name="orig") if sc.get("client_index") else None
     owned_keys = []
     for k, kk in enumerate(ds["key_kinds"]):
         base = gen.build_key(dict(ds, named=False, index="range"), k, None)
@@ -533,7 +561,7 @@ def execute(sc, sched: Choices, cls, cfg):
             mask_obj = owned_mask.obj
         elif isinstance(mask, pd.Series):
             base = np.asarray(mask).copy()
-            owned_mask = Owned(pd.Series(base, copy=False), [base], "pandas")
+            owned_mask = Owned(pd.Series(base, index=_CLIENT_INDEX[0], copy=False), [base], "pandas")
             mask_obj = owned_mask.obj
         else:
             mask_obj = mask
